@@ -106,11 +106,16 @@ impl Assignment {
         let name = self.idents[0].name();
 
         if self.flags().contains(AssignmentFlag::modify()) {
-            let (ident, _) = user_data
+            let (ident, is_captured) = user_data
                 .get_dependency_flags_from_name_skip_n(name, skip)
                 .context(
                     "attempting to look up a variable that does not exist in any parent scope",
                 )?;
+
+            if !is_captured {
+                // `modify` compiles to a write through the function's captured variables
+                bail!("`{name}` belongs to this function and is not captured from an enclosing one: assign to it without `modify`");
+            }
 
             return Ok(!ident.is_const());
         }
